@@ -7,10 +7,17 @@
 #include <map>
 #include <random>
 
+#ifdef CHESSPP_VERIF
+struct VerifPeek;  // verification harness: reads the loaded records
+#endif
+
 namespace engine
 {
 class PolyglotBook
 {
+#ifdef CHESSPP_VERIF
+    friend struct ::VerifPeek;
+#endif
   public:
     using WeightedMove = std::pair<Move, int>;
 
